@@ -1084,6 +1084,10 @@ class Engine(Executor):
                     raise Unsupported("len of an accumulated dict")
                 return [(st, sv_int(len(o.entries)))]
             if isinstance(o, ListObj):
+                if len(o.lt.segs) == 1 and isinstance(o.lt.segs[0], L.MapSeg) and not o.lt.segs[0].body.is_concrete() \
+                        and self.total_alternatives(st, o.lt.segs[0]):
+                    seg0 = o.lt.segs[0]   # exactly one element per index
+                    return [(st, SV(mk_i(z3.If(seg0.n > 0, seg0.n, 0)), "int"))]
                 return [(st, SV(mk_i(L.lt_length(o.lt, lambda a: self._abs_len(st, a))), "int"))]
         if isinstance(v, L.LT):
             return [(st, SV(mk_i(L.lt_length(v, lambda a: self._abs_len(st, a))), "int"))]
